@@ -677,6 +677,10 @@ def c07_4(ctx: Ctx) -> RuleResult:
         st = work.pop()
         for e, kind in reqs:
             uses_nc = e.cls is A.cls and e.outer is None and any(a in ("index",) for a in e.params)
+            if e.outer is not None and not uses_nc:
+                # a closure that only forwards to such a method (`def fun(x): return self._fun(x, index, lin_coef)`)
+                nc_names = {m_.name for m_ in A.cls.methods.values() if "index" in m_.params}
+                uses_nc = any(isinstance(x_, ast.Call) and isinstance(x_.func, ast.Attribute) and x_.func.attr in nc_names for x_ in ast.walk(e.node))
             if uses_nc and (A.nc_field is None or st.heap["self"].get(A.nc_field) is None):
                 continue
             if kind == "G" and st.atoms.get(nograd_atom) is True:
@@ -690,7 +694,19 @@ def c07_4(ctx: Ctx) -> RuleResult:
                     kwargs[extra] = Sym(f"arg.{extra}") if extra != "index" else TOP
                 if e.outer is not None:
                     # closures read `self` from the enclosing method
-                    env_fix = {e.outer.positional[0]: self_obj} if e.outer.positional else {}
+                    env_fix = {}
+                    o_ = e.outer
+                    while o_ is not None:
+                        if o_.outer is None:
+                            if o_.positional:
+                                env_fix[o_.positional[0]] = self_obj
+                            for extra in o_.positional[1:]:
+                                env_fix.setdefault(extra, Sym(f"arg.{extra}") if extra != "index" else TOP)
+                        else:
+                            # parameters of intermediate closures factories (`_constraint_entry(type_, index)`)
+                            for extra in o_.params:
+                                env_fix.setdefault(extra, Sym(f"arg.{extra}") if extra != "index" else TOP)
+                        o_ = o_.outer
                 else:
                     env_fix = {}
                 try:
